@@ -193,7 +193,8 @@ func (fc *funcCtx) havoc(st *State, l *Loop) {
 				break
 			}
 			if sv, have := st.cells[al].(SliceV); have {
-				excluded[k] = append(excluded[k], sv.Ref)
+				// a slice without capacity cannot be written in place
+				excluded[k] = append(excluded[k], and(app("=", "r", sv.Ref), app(">", sv.Cap, "0")))
 			}
 		}
 		framable[k] = ok
@@ -228,7 +229,7 @@ func (fc *funcCtx) havoc(st *State, l *Loop) {
 			if framable[k] {
 				conds := []string{app("<", "r", entryBound)}
 				for _, x := range excluded[k] {
-					conds = append(conds, not(app("=", "r", x)))
+					conds = append(conds, not(x))
 				}
 				st.assume(fmt.Sprintf("(forall ((r Int)) (! (=> %s (= (select %s r) (select %s r))) :pattern ((select %s r))))", and(conds...), nh, old, nh))
 			}
